@@ -9,3 +9,4 @@ open Pynenc.C04
 #print axioms recovered_can_complete
 #print axioms recovery_run_requeues_all_taken
 #print axioms take_only_scanned
+#print axioms live_runner_heartbeats_every_check
